@@ -587,3 +587,80 @@ Qed.
 
 (* ------------------------------------------------------------------ <polygons>: vcounts from the <p> lengths *)
 
+
+(* ------------------------------------------------------------------ <polygons>: vcounts from the <p> lengths *)
+
+Lemma chunk_fuel_enough {A} k : k > 0 -> forall f1 f2 (l : list A),
+  length l <= f1 -> length l <= f2 -> chunk_fuel f1 k l = chunk_fuel f2 k l.
+Proof.
+  intro Hk. induction f1 as [|f1 IH]; intros f2 l H1 H2.
+  - destruct l; [|simpl in H1; lia]. destruct f2; reflexivity.
+  - destruct l as [|x l']; [destruct f2; reflexivity|].
+    destruct f2 as [|f2]; [simpl in H2; lia|].
+    cbn [chunk_fuel]. f_equal.
+    apply IH; rewrite skipn_length; cbn [length] in *; lia.
+Qed.
+
+Lemma chunk_cons {A} k (l : list A) : k > 0 -> l <> [] ->
+  chunk k l = firstn k l :: chunk k (skipn k l).
+Proof.
+  intros Hk Hne. unfold chunk. destruct l as [|x l']; [contradiction|].
+  cbn [length chunk_fuel]. f_equal.
+  apply chunk_fuel_enough; [exact Hk | | lia].
+  rewrite skipn_length. cbn [length]. lia.
+Qed.
+
+Lemma chunk_app {A} k : k > 0 -> forall n (a b : list A), length a <= n -> length a mod k = 0 ->
+  chunk k (a ++ b) = chunk k a ++ chunk k b.
+Proof.
+  intro Hk. induction n as [|n IH]; intros a b Hn Hm.
+  - destruct a; [reflexivity | simpl in Hn; lia].
+  - destruct a as [|x a']; [reflexivity|].
+    set (a := x :: a') in *.
+    assert (Hge : k <= length a).
+    { destruct (Nat.lt_ge_cases (length a) k) as [Hlt|Hge]; [|exact Hge].
+      rewrite Nat.mod_small in Hm by exact Hlt. unfold a in Hm. simpl in Hm. lia. }
+    rewrite (chunk_cons k (a ++ b)) by (try exact Hk; unfold a; discriminate).
+    rewrite (chunk_cons k a) by (try exact Hk; unfold a; discriminate).
+    rewrite firstn_app, skipn_app.
+    replace (k - length a) with 0 by lia. cbn [firstn skipn]. rewrite app_nil_r.
+    cbn [app]. f_equal.
+    apply IH.
+    + rewrite skipn_length. unfold a in *. cbn [length] in *. lia.
+    + rewrite skipn_length.
+      replace (length a) with ((length a - k) + 1 * k) in Hm by lia.
+      rewrite Nat.mod_add in Hm by lia. exact Hm.
+Qed.
+
+Lemma split_by_app {A} n vs (x y : list A) : length x = n ->
+  split_by (n :: vs) (x ++ y) = x :: split_by vs y.
+Proof.
+  intro H. cbn [split_by]. rewrite firstn_app, skipn_app, H, Nat.sub_diag.
+  cbn [firstn skipn]. rewrite app_nil_r.
+  rewrite <- H, firstn_all, skipn_all. reflexivity.
+Qed.
+
+Theorem polygons_split {A} k (ps : list (list A)) : k > 0 ->
+  Forall (fun p => length p mod k = 0) ps ->
+  polygons_rows k ps = Ok (concat (map (chunk k) ps)) /\
+  split_by (polygons_vcounts k ps) (concat (map (chunk k) ps)) = map (chunk k) ps /\
+  length (concat (map (chunk k) ps)) = total (polygons_vcounts k ps).
+Proof.
+  intros Hk Hall.
+  assert (Hc : length (concat ps) mod k = 0 /\ chunk k (concat ps) = concat (map (chunk k) ps)).
+  { induction Hall as [|p ps Hp Hall IH]; [split; [apply Nat.mod_0_l; lia | reflexivity]|].
+    destruct IH as [IH1 IH2]. cbn [concat map]. split.
+    - rewrite app_length. rewrite Nat.add_mod by lia. rewrite Hp, IH1. simpl. apply Nat.mod_0_l. lia.
+    - rewrite (chunk_app k Hk (length p)) by (try exact Hp; lia). rewrite IH2. reflexivity. }
+  destruct Hc as [Hc1 Hc2].
+  split; [|split].
+  - unfold polygons_rows, reshape.
+    destruct (Nat.eqb k 0) eqn:E0; [apply Nat.eqb_eq in E0; lia|].
+    rewrite Hc1, Nat.eqb_refl, Hc2. reflexivity.
+  - clear Hc1 Hc2. induction Hall as [|p ps Hp Hall IH]; [reflexivity|].
+    cbn [polygons_vcounts map concat]. rewrite split_by_app by (apply chunk_length; assumption).
+    f_equal. exact IH.
+  - clear Hc1 Hc2. induction Hall as [|p ps Hp Hall IH]; [reflexivity|].
+    cbn [polygons_vcounts map concat]. rewrite app_length, chunk_length by assumption.
+    unfold polygons_vcounts in IH. rewrite IH. reflexivity.
+Qed.
